@@ -201,4 +201,351 @@ Proof.
 Qed.
 
 
+(* ---------- lengths from 16: the SSE loop ---------- *)
+
+Lemma chunk_readable a n : A <= a -> a + Z.of_nat n <= A + len ->
+  forall k, (k < n)%nat -> readable A s (a + Z.of_nat k) = true.
+Proof. intros Ha Hb k Hk. apply (readable_inside A s junk). lia. Qed.
+
+Lemma chunk_bytes off : (off + 16 <= length s)%nat ->
+  load A s junk 16 (A + Z.of_nat off) = Some (firstn 16 (skipn off s)) /\ length (firstn 16 (skipn off s)) = 16%nat.
+Proof.
+  intros H. split.
+  - rewrite (load_bytes A s junk 16) by (apply chunk_readable; unfold X86.len; lia).
+    rewrite (bytes_at_inside A s junk) by (unfold X86.len; lia). do 3 f_equal. lia.
+  - rewrite firstn_length, skipn_length. lia.
+Qed.
+
+(* ssesuccess: the offset of the chunk plus the index inside it *)
+Lemma sse_success ax cx dx di r9 r10 r11 r12 r13 r14 r15 x0 x1 x2 x3 x4 x5 x6 x7 f :
+  0 <= di - A -> 0 <= dx -> di - A + dx < two63 ->
+  run 4 37 (mk ax len cx dx A di slot r9 r10 r11 r12 r13 r14 r15 x0 x1 x2 x3 x4 x5 x6 x7 f None) = Done (Some (di - A + dx)).
+Proof.
+  intros H1 H2 H3. unfold mk. unfold two63 in *.
+  xstep. rewrite in64_true by (unfold two64; lia). cbv iota.
+  xstep. rewrite in64_true by (unfold two64; lia). cbv iota.
+  xstep. replace (0 + slot + 0 =? slot) with true by lia. cbv iota.
+  xstep. f_equal. f_equal. unfold signed64, two63. replace (di - A + dx <? 9223372036854775808) with true by lia. reflexivity.
+Qed.
+
+(* the last, overlapping chunk [len-16, len) *)
+Lemma sse_final ax cx dx di r9 r10 r11 r12 r13 r14 r15 x0 x1 x2 x3 x4 x5 x6 x7 f :
+  16 <= len -> ax = A + len - 16 -> fh (firstn (length s - 16) s) = -1 ->
+  exists fuel, run fuel 29 (mk ax len cx dx A di slot r9 r10 r11 r12 r13 r14 r15 x0 x1 x2 x3 x4 x5 x6 x7 f None) = Done (Some (fh s)).
+Proof.
+  intros Hl Eax Hp. pose proof len_nonneg as H0. unfold two63 in Hlen.
+  assert (Hn : len = Z.of_nat (length s)) by reflexivity.
+  destruct (chunk_bytes (length s - 16)) as [Hld Hlc]; [lia|].
+  replace (A + Z.of_nat (length s - 16)) with ax in Hld by lia.
+  set (ch := firstn 16 (skipn (length s - 16) s)) in *.
+  destruct (fh_chunk s (length s - 16) 16 ltac:(lia) Hp) as [Cz Cnz]. fold ch in Cz, Cnz.
+  replace (length s - 16 + 16)%nat with (length s) in Cz by lia. rewrite fh_all in Cz.
+  destruct (Z.eq_dec (movmsk ch) 0) as [Mz|Mnz].
+  - exists 8%nat. unfold mk. xstep. xstep. replace (0 + ax + 0) with ax by lia. rewrite Hld. cbv iota.
+    xstep. xstep. rewrite (vlow_vput 16 _ _ Hlc).
+    xstep. rewrite (movmsk_small16 _ Hlc), Mz. change (0 =? 0) with true. cbv iota.
+    xstep. cbn [holds zf negb]. cbv iota.
+    xstep. replace (0 + slot + 0 =? slot) with true by lia. cbv iota. rewrite store_m1.
+    xstep. rewrite (Cz Mz). reflexivity.
+  - destruct (Cnz Mnz) as [Efh Rfh].
+    assert (Hbsf : bsf (movmsk ch) = fh ch) by (apply bsf_movmsk; [lia|exact Mnz]).
+    exists 10%nat. unfold mk. xstep. xstep. replace (0 + ax + 0) with ax by lia. rewrite Hld. cbv iota.
+    xstep. xstep. rewrite (vlow_vput 16 _ _ Hlc).
+    xstep. rewrite (movmsk_small16 _ Hlc). replace (movmsk ch =? 0) with false by lia. cbv iota. rewrite Hbsf.
+    xstep. cbn [holds zf negb]. cbv iota.
+    match goal with |- X86.run _ _ _ _ _ _ _ _ 4 37 ?st = _ =>
+      pose proof (sse_success ax cx (fh ch) ax r9 r10 r11 r12 r13 r14 r15) as S4 end.
+    unfold mk in S4. rewrite S4 by (unfold two63; lia). f_equal. f_equal. lia.
+Qed.
+
+(* the loop: invariant "the first 16k bytes hold no high byte", measure = chunks left *)
+Lemma sse_loop (m : nat) : forall (k : nat) ax cx dx di r9 r10 r11 r12 r13 r14 r15 x0 x1 x2 x3 x4 x5 x6 x7 f,
+  16 <= len -> ax = A + len - 16 -> di = A + 16 * Z.of_nat k -> 16 * Z.of_nat k <= len ->
+  fh (firstn (16 * k) s) = -1 -> len - 16 - 16 * Z.of_nat k <= 16 * Z.of_nat m ->
+  exists fuel, run fuel 27 (mk ax len cx dx A di slot r9 r10 r11 r12 r13 r14 r15 x0 x1 x2 x3 x4 x5 x6 x7 f None) = Done (Some (fh s)).
+Proof.
+  induction m as [|m IH]; intros k ax cx dx di r9 r10 r11 r12 r13 r14 r15 x0 x1 x2 x3 x4 x5 x6 x7 f Hl Eax Edi Hk Hp Hm;
+    pose proof len_nonneg as H0; unfold two63 in Hlen; assert (Hn : len = Z.of_nat (length s)) by reflexivity.
+  - (* no chunk left: the loop exits at once *)
+    assert (Hge : ax <= di) by lia.
+    destruct (sse_final ax cx dx di r9 r10 r11 r12 r13 r14 r15 x0 x1 x2 x3 x4 x5 x6 x7 (cmp_flags di ax signed64) Hl Eax) as [fu Hfu].
+    { apply (fh_firstn_prefix s (16 * k)); [exact Hp|lia]. }
+    exists (S (S fu)). unfold mk. xstep. xstep. rewrite holds_cmp_B. replace (di <? ax) with false by lia. cbv iota.
+    exact Hfu.
+  - destruct (Z_lt_le_dec di ax) as [Hlt|Hge].
+    + (* one more chunk [16k, 16k+16) *)
+      destruct (chunk_bytes (16 * k)) as [Hld Hlc]; [lia|].
+      replace (A + Z.of_nat (16 * k)) with di in Hld by lia.
+      set (ch := firstn 16 (skipn (16 * k) s)) in *.
+      destruct (fh_chunk s (16 * k) 16 ltac:(lia) Hp) as [Cz Cnz]. fold ch in Cz, Cnz.
+      destruct (Z.eq_dec (movmsk ch) 0) as [Mz|Mnz].
+      * specialize (Cz Mz). replace (16 * k + 16)%nat with (16 * S k)%nat in Cz by lia.
+        destruct (IH (S k) ax cx 0 (di + 16) r9 r10 r11 r12 r13 r14 r15 (vput 16 (map2 Z.land (vput 16 ch x1) x0) x0) (vput 16 ch x1) x2 x3 x4 x5 x6 x7
+                  {| zf := true; cf := cf (cmp_flags di ax signed64); lt := lt (cmp_flags di ax signed64) |} Hl Eax) as [fu Hfu]; [lia|lia|exact Cz|lia|].
+        exists (S (S (S (S (S (S (S (S fu)))))))). unfold mk. xstep. xstep. rewrite holds_cmp_B. replace (di <? ax) with true by lia. cbv iota.
+        xstep. replace (0 + di + 0) with di by lia. rewrite Hld. cbv iota.
+        xstep. xstep. rewrite (vlow_vput 16 _ _ Hlc).
+        xstep. rewrite (movmsk_small16 _ Hlc), Mz. change (0 =? 0) with true. cbv iota.
+        xstep. cbn [holds zf negb]. cbv iota.
+        xstep. change (16 mod two64) with 16. rewrite in64_true by (unfold two64; lia). cbv iota.
+        unfold mk in Hfu. exact Hfu.
+      * destruct (Cnz Mnz) as [Efh Rfh].
+        assert (Hbsf : bsf (movmsk ch) = fh ch) by (apply bsf_movmsk; [lia|exact Mnz]).
+        exists 11%nat. unfold mk. xstep. xstep. rewrite holds_cmp_B. replace (di <? ax) with true by lia. cbv iota.
+        xstep. replace (0 + di + 0) with di by lia. rewrite Hld. cbv iota.
+        xstep. xstep. rewrite (vlow_vput 16 _ _ Hlc).
+        xstep. rewrite (movmsk_small16 _ Hlc). replace (movmsk ch =? 0) with false by lia. cbv iota. rewrite Hbsf.
+        xstep. cbn [holds zf negb]. cbv iota.
+        match goal with |- X86.run _ _ _ _ _ _ _ _ 4 37 ?st = _ =>
+          pose proof (sse_success ax cx (fh ch) di r9 r10 r11 r12 r13 r14 r15) as S4 end.
+        unfold mk in S4. rewrite S4 by (unfold two63; lia). f_equal. f_equal. lia.
+    + destruct (sse_final ax cx dx di r9 r10 r11 r12 r13 r14 r15 x0 x1 x2 x3 x4 x5 x6 x7 (cmp_flags di ax signed64) Hl Eax) as [fu Hfu].
+      { apply (fh_firstn_prefix s (16 * k)); [exact Hp|lia]. }
+      exists (S (S fu)). unfold mk. xstep. xstep. rewrite holds_cmp_B. replace (di <? ax) with false by lia. cbv iota.
+      exact Hfu.
+Qed.
+
+(* from the dispatch: lengths 16..32, and every length from 16 when the CPU has no AVX2 *)
+Lemma sse_path ax cx dx di r9 r10 r11 r12 r13 r14 r15 x0 x1 x2 x3 x4 x5 x6 x7 :
+  16 <= len -> (len <= 32 \/ avx2 = false) ->
+  exists fuel, run fuel 14 (mk ax len cx dx A di slot r9 r10 r11 r12 r13 r14 r15 x0 x1 x2 x3 x4 x5 x6 x7 (cmp_flags len 16 signed64) None)
+               = Done (Some (fh s)).
+Proof.
+  intros Hl Hor. pose proof len_nonneg as H0. unfold two63 in Hlen.
+  destruct (Z_le_gt_dec len 32) as [H32|H32].
+  - destruct (sse_loop (Z.to_nat len) 0 (-16 + A + len * 1) cx dx A r9 r10 r11 r12 r13 r14 r15 x0 x1 x2 x3 x4 x5 x6 x7
+                (cmp_flags len (32 mod two64) signed64) Hl) as [fu Hfu]; try lia; [reflexivity|].
+    exists (S (S (S (S (S (S fu)))))). unfold mk.
+    xstep. rewrite holds_cmp_LT by (unfold two63; lia). replace (len <? 16) with false by lia. cbv iota.
+    xstep. xstep. xstep. rewrite holds_cmp_A. change (32 mod two64) with 32. replace (32 <? len) with false by lia. cbv iota.
+    xstep. rewrite in64_true by (unfold two64; lia). cbv iota.
+    xstep. exact Hfu.
+  - destruct Hor as [Hor|Hor]; [lia|].
+    destruct (sse_loop (Z.to_nat len) 0 (-16 + A + len * 1) cx dx A r9 r10 r11 r12 r13 r14 r15 x0 x1 x2 x3 x4 x5 x6 x7
+                (cmp_flags 0 1 (fun v => v)) Hl) as [fu Hfu]; try lia; [reflexivity|].
+    exists (S (S (S (S (S (S (S (S fu)))))))). unfold mk.
+    xstep. rewrite holds_cmp_LT by (unfold two63; lia). replace (len <? 16) with false by lia. cbv iota.
+    xstep. xstep. xstep. rewrite holds_cmp_A. change (32 mod two64) with 32. replace (32 <? len) with true by lia. cbv iota.
+    xstep. replace (if avx2 then 1 else 0) with 0 by (rewrite Hor; reflexivity). xstep. rewrite holds_cmp_NE. change (negb (0 =? 1)) with true. cbv iota.
+    xstep. rewrite in64_true by (unfold two64; lia). cbv iota.
+    xstep. exact Hfu.
+Qed.
+
+(* ---------- lengths above 32 with AVX2 ---------- *)
+
+Notation r128 := (repeat 128 32).
+Definition y2of (data : list Z) := map2 Z.land r128 data.
+Definition y3of (data : list Z) := map2 eqmask r128 (y2of data).
+
+Lemma chunk32 off : (off + 32 <= length s)%nat ->
+  let data := firstn 32 (skipn off s) in
+  load A s junk 32 (A + Z.of_nat off) = Some data /\ length data = 32%nat /\
+  movmsk (y3of data) = movmsk data /\ forallb (fun x => x =? 0) (map2 Z.land (y3of data) (y3of data)) = (movmsk data =? 0) /\
+  length (y3of data) = 32%nat /\ length (y2of data) = 32%nat.
+Proof.
+  intros H data.
+  assert (Eb : bytes_at A s junk (A + Z.of_nat off) 32 = data).
+  { rewrite (bytes_at_inside A s junk) by (unfold X86.len; lia). unfold data. do 2 f_equal. lia. }
+  assert (L : length data = 32%nat) by (unfold data; rewrite firstn_length, skipn_length; lia).
+  assert (W : Forall (fun b => 0 <= b < 256) data) by (rewrite <- Eb; apply bytes_range).
+  split; [|split; [exact L|]].
+  - rewrite (load_bytes A s junk 32) by (apply chunk_readable; unfold X86.len; lia). rewrite Eb. reflexivity.
+  - destruct (hi_mask32 data W L) as (M1 & M2 & M3). unfold y3of, y2of. repeat split; try assumption.
+    rewrite map2_length, repeat_length, L. reflexivity.
+Qed.
+
+(* avx2success *)
+Lemma avx2_success data ax cx dx di r9 r10 r11 r12 r13 r14 r15 x0 x1 x2 x4 x5 x6 x7 f :
+  length data = 32%nat -> length (y3of data) = 32%nat -> movmsk (y3of data) = movmsk data -> movmsk data <> 0 ->
+  0 <= di - A -> di - A + 32 < two63 ->
+  run 7 90 (mk ax len cx dx A di slot r9 r10 r11 r12 r13 r14 r15 x0 x1 x2 (y3of data) x4 x5 x6 x7 f None)
+  = Done (Some (di - A + fh data)).
+Proof.
+  intros L L3 M Mnz H1 H2. unfold mk. unfold two63 in *.
+  assert (Hbsf : bsf (movmsk data) = fh data) by (apply bsf_movmsk; [lia|exact Mnz]).
+  pose proof (movmsk_range data) as R. rewrite L in R. change (2 ^ Z.of_nat 32) with 4294967296 in R.
+  destruct (fh_range data) as [E|E]; [apply movmsk_zero in E; congruence|]. rewrite L in E.
+  xstep. rewrite (vlow_full 32 _ L3), M.
+  xstep. unfold two32. rewrite (Z.mod_small (movmsk data)) by lia. replace (movmsk data =? 0) with false by lia. cbv iota. rewrite Hbsf.
+  xstep. rewrite in64_true by (unfold two64; lia). cbv iota.
+  xstep. rewrite in64_true by (unfold two64; lia). cbv iota.
+  xstep. replace (0 + slot + 0 =? slot) with true by lia. cbv iota.
+  xstep. xstep. f_equal. f_equal. unfold signed64, two63. replace (fh data + (di - A) <? 9223372036854775808) with true by lia. lia.
+Qed.
+
+(* the five instructions that test one 32-byte chunk (at avx2_loop and after it) *)
+Ltac avx2_chunk di data x2 x3 Hld L L2 L3 Mf Hx2 Hx3 :=
+  xstep; replace (0 + di + 0) with di by lia; rewrite Hld; cbv iota; rewrite (vput_full 32 data x2 L Hx2);
+  xstep; change (map2 Z.land r128 data) with (y2of data); rewrite (vput_full 32 (y2of data) data L2) by lia;
+  xstep; change (map2 (fun x y => if x =? y then 255 else 0) r128 (y2of data)) with (y3of data);
+    rewrite (vput_full 32 (y3of data) x3 L3 Hx3);
+  xstep; rewrite Mf;
+  xstep; cbn [holds zf negb].
+
+(* the last, overlapping chunk [len-32, len) *)
+Lemma avx2_final ax cx dx di r9 r10 r11 r12 r13 r14 r15 x0 x2 x3 x5 x6 x7 f :
+  32 <= len -> r11 = A + len - 32 -> fh (firstn (length s - 32) s) = -1 -> (length x2 <= 32)%nat -> (length x3 <= 32)%nat ->
+  exists fuel, run fuel 81 (mk ax len cx dx A di slot r9 r10 r11 r12 r13 r14 r15 x0 r128 x2 x3 r128 x5 x6 x7 f None) = Done (Some (fh s)).
+Proof.
+  intros Hl Er Hp Hx2 Hx3. pose proof len_nonneg as H0. unfold two63 in Hlen.
+  assert (Hn : len = Z.of_nat (length s)) by reflexivity.
+  destruct (chunk32 (length s - 32)) as (Hld & L & M & Mf & L3 & L2); [lia|].
+  replace (A + Z.of_nat (length s - 32)) with r11 in Hld by lia.
+  set (data := firstn 32 (skipn (length s - 32) s)) in *.
+  destruct (fh_chunk s (length s - 32) 32 ltac:(lia) Hp) as [Cz Cnz]. fold data in Cz, Cnz.
+  replace (length s - 32 + 32)%nat with (length s) in Cz by lia. rewrite fh_all in Cz.
+  destruct (Z.eq_dec (movmsk data) 0) as [Mz|Mnz].
+  - exists 9%nat. unfold mk. xstep.
+    avx2_chunk r11 data x2 x3 Hld L L2 L3 Mf Hx2 Hx3.
+    rewrite Mz. change (negb (0 =? 0)) with false. cbv iota.
+    xstep. xstep. replace (0 + slot + 0 =? slot) with true by lia. cbv iota. rewrite store_m1.
+    xstep. rewrite (Cz Mz). reflexivity.
+  - destruct (Cnz Mnz) as [Efh Rfh].
+    exists 13%nat. unfold mk. xstep.
+    avx2_chunk r11 data x2 x3 Hld L L2 L3 Mf Hx2 Hx3.
+    replace (movmsk data =? 0) with false by lia. cbv [negb]. cbv iota.
+    pose proof (avx2_success data ax cx dx r11 r9 r10 r11 r12 r13 r14 r15 x0 r128 (y2of data) r128 x5 x6 x7) as S7.
+    unfold mk in S7. rewrite S7 by (try assumption; unfold two63; lia). f_equal. f_equal. lia.
+Qed.
+
+(* the loop (entered with at least one whole chunk ahead): invariant "the first 32k bytes hold no high byte" *)
+Lemma avx2_loop (m : nat) : forall (k : nat) ax cx dx di r9 r10 r11 r12 r13 r14 r15 x0 x2 x3 x5 x6 x7 f,
+  32 <= len -> r11 = A + len - 32 -> di = A + 32 * Z.of_nat k -> 32 * Z.of_nat k + 32 <= len ->
+  fh (firstn (32 * k) s) = -1 -> len - 32 - 32 * Z.of_nat k <= 32 * Z.of_nat m -> (length x2 <= 32)%nat -> (length x3 <= 32)%nat ->
+  exists fuel, run fuel 73 (mk ax len cx dx A di slot r9 r10 r11 r12 r13 r14 r15 x0 r128 x2 x3 r128 x5 x6 x7 f None) = Done (Some (fh s)).
+Proof.
+  induction m as [|m IH].
+  - intros k ax cx dx di r9 r10 r11 r12 r13 r14 r15 x0 x2 x3 x5 x6 x7 f Hl Er Edi Hk Hp Hm Hx2 Hx3;
+    pose proof len_nonneg as H0; unfold two63 in Hlen; assert (Hn : len = Z.of_nat (length s)) by reflexivity;
+    destruct (chunk32 (32 * k)) as (Hld & L & M & Mf & L3 & L2); [lia|];
+    replace (A + Z.of_nat (32 * k)) with di in Hld by lia;
+    set (data := firstn 32 (skipn (32 * k) s)) in *;
+    (destruct (fh_chunk s (32 * k) 32 ltac:(lia) Hp) as [Cz Cnz]); fold data in Cz, Cnz;
+    (destruct (Z.eq_dec (movmsk data) 0) as [Mz|Mnz]).
+    + specialize (Cz Mz). destruct (Z_lt_le_dec (di + 32) r11) as [Hlt|Hge]; [exfalso; lia|].
+      destruct (avx2_final ax cx dx (di + 32) r9 r10 r11 r12 r13 r14 r15 x0 (y2of data) (y3of data) x5 x6 x7 (cmp_flags (di + 32) r11 signed64) ltac:(lia) Er) as [fu Hfu]; [|lia|lia|].
+      { apply (fh_firstn_prefix s (32 * k + 32)); [exact Cz|lia]. }
+      exists (S (S (S (S (S (S (S (S fu)))))))). unfold mk.
+      avx2_chunk di data x2 x3 Hld L L2 L3 Mf Hx2 Hx3.
+      rewrite Mz. change (negb (0 =? 0)) with false. cbv iota.
+      xstep. change (32 mod two64) with 32. rewrite in64_true by (unfold two64; lia). cbv iota.
+      xstep. xstep. rewrite holds_cmp_LT by (unfold two63; lia). replace (di + 32 <? r11) with false by lia. cbv iota.
+      unfold mk in Hfu. exact Hfu.
+    + 
+    destruct (Cnz Mnz) as [Efh Rfh].
+    exists 12%nat. unfold mk.
+    avx2_chunk di data x2 x3 Hld L L2 L3 Mf Hx2 Hx3.
+    replace (movmsk data =? 0) with false by lia. cbv [negb]. cbv iota.
+    pose proof (avx2_success data ax cx dx di r9 r10 r11 r12 r13 r14 r15 x0 r128 (y2of data) r128 x5 x6 x7) as S7.
+    unfold mk in S7. rewrite S7 by (try assumption; unfold two63; lia). f_equal. f_equal. lia.
+  - intros k ax cx dx di r9 r10 r11 r12 r13 r14 r15 x0 x2 x3 x5 x6 x7 f Hl Er Edi Hk Hp Hm Hx2 Hx3;
+    pose proof len_nonneg as H0; unfold two63 in Hlen; assert (Hn : len = Z.of_nat (length s)) by reflexivity;
+    destruct (chunk32 (32 * k)) as (Hld & L & M & Mf & L3 & L2); [lia|];
+    replace (A + Z.of_nat (32 * k)) with di in Hld by lia;
+    set (data := firstn 32 (skipn (32 * k) s)) in *;
+    (destruct (fh_chunk s (32 * k) 32 ltac:(lia) Hp) as [Cz Cnz]); fold data in Cz, Cnz;
+    (destruct (Z.eq_dec (movmsk data) 0) as [Mz|Mnz]).
+    + specialize (Cz Mz). destruct (Z_lt_le_dec (di + 32) r11) as [Hlt|Hge].
+      {
+      replace (32 * k + 32)%nat with (32 * S k)%nat in Cz by lia.
+      destruct (IH (S k) ax cx dx (di + 32) r9 r10 r11 r12 r13 r14 r15 x0 (y2of data) (y3of data) x5 x6 x7 (cmp_flags (di + 32) r11 signed64) Hl Er) as [fu Hfu]; try lia.
+      exists (S (S (S (S (S (S (S (S fu)))))))). unfold mk.
+      avx2_chunk di data x2 x3 Hld L L2 L3 Mf Hx2 Hx3.
+      rewrite Mz. change (negb (0 =? 0)) with false. cbv iota.
+      xstep. change (32 mod two64) with 32. rewrite in64_true by (unfold two64; lia). cbv iota.
+      xstep. xstep. rewrite holds_cmp_LT by (unfold two63; lia). replace (di + 32 <? r11) with true by lia. cbv iota.
+      unfold mk in Hfu. exact Hfu.
+      }
+      destruct (avx2_final ax cx dx (di + 32) r9 r10 r11 r12 r13 r14 r15 x0 (y2of data) (y3of data) x5 x6 x7 (cmp_flags (di + 32) r11 signed64) ltac:(lia) Er) as [fu Hfu]; [|lia|lia|].
+      { apply (fh_firstn_prefix s (32 * k + 32)); [exact Cz|lia]. }
+      exists (S (S (S (S (S (S (S (S fu)))))))). unfold mk.
+      avx2_chunk di data x2 x3 Hld L L2 L3 Mf Hx2 Hx3.
+      rewrite Mz. change (negb (0 =? 0)) with false. cbv iota.
+      xstep. change (32 mod two64) with 32. rewrite in64_true by (unfold two64; lia). cbv iota.
+      xstep. xstep. rewrite holds_cmp_LT by (unfold two63; lia). replace (di + 32 <? r11) with false by lia. cbv iota.
+      unfold mk in Hfu. exact Hfu.
+    + 
+    destruct (Cnz Mnz) as [Efh Rfh].
+    exists 12%nat. unfold mk.
+    avx2_chunk di data x2 x3 Hld L L2 L3 Mf Hx2 Hx3.
+    replace (movmsk data =? 0) with false by lia. cbv [negb]. cbv iota.
+    pose proof (avx2_success data ax cx dx di r9 r10 r11 r12 r13 r14 r15 x0 r128 (y2of data) r128 x5 x6 x7) as S7.
+    unfold mk in S7. rewrite S7 by (try assumption; unfold two63; lia). f_equal. f_equal. lia.
+Qed.
+
+(* from the dispatch: lengths above 32 on a CPU with AVX2 *)
+Lemma avx2_path cx dx di r9 r10 r11 r12 r13 r14 r15 x0 x1 x2 x3 x4 x5 x6 x7 :
+  32 < len -> avx2 = true -> (length x2 <= 32)%nat -> (length x3 <= 32)%nat ->
+  exists fuel, run fuel 14 (mk (128 mod two64) len cx dx A di slot r9 r10 r11 r12 r13 r14 r15 x0 x1 x2 x3 x4 x5 x6 x7 (cmp_flags len 16 signed64) None)
+               = Done (Some (fh s)).
+Proof.
+  intros Hl Hav Hx2 Hx3. pose proof len_nonneg as H0. unfold two63 in Hlen.
+  set (x0' := vput 16 (le_bytes4 ((128 mod two64) mod two32) ++ repeat 0 12) (vput 16 (le_bytes4 ((128 mod two64) mod two32) ++ repeat 0 12) x0)).
+  destruct (avx2_loop (Z.to_nat len) 0 (128 mod two64) cx dx A r9 r10 (-32 + A + len * 1) r12 r13 r14 r15 x0' x2 x3 x5 x6 x7
+              (cmp_flags 1 1 (fun v => v))) as [fu Hfu]; try lia; [reflexivity|].
+  exists (S (S (S (S (S (S (S (S (S (S (S (S fu)))))))))))). unfold mk.
+  xstep. rewrite holds_cmp_LT by (unfold two63; lia). replace (len <? 16) with false by lia. cbv iota.
+  xstep. xstep. xstep. rewrite holds_cmp_A. change (32 mod two64) with 32. replace (32 <? len) with true by lia. cbv iota.
+  xstep. replace (if avx2 then 1 else 0) with 1 by (rewrite Hav; reflexivity).
+  xstep. rewrite holds_cmp_NE. change (negb (1 =? 1)) with false. cbv iota.
+  xstep. xstep. rewrite hd_movd. change (((128 mod two64) mod two32) mod 256) with 128.
+  xstep. xstep. rewrite in64_true by (unfold two64; lia). cbv iota.
+  xstep. rewrite hd_movd. change (((128 mod two64) mod two32) mod 256) with 128.
+  xstep. unfold mk, x0' in Hfu. exact Hfu.
+Qed.
+
+(* the state at the dispatch, reached from either entry point *)
+Lemma prologue_str r0 : exists x0, forall f,
+  run (S (S (S (S (S (S (S (S (S (S f)))))))))) entry_index_non_ascii_go122_amd64_IndexNonASCII (init r0)
+  = run f 14 (mk (128 mod two64) len (r0 CX) (r0 DX) A (r0 DI) slot (r0 R9) (r0 R10) (r0 R11) (r0 R12) (r0 R13) (r0 R14) (r0 R15)
+                 x0 (repeat 0 32) (repeat 0 32) (repeat 0 32) (repeat 0 32) (repeat 0 32) (repeat 0 32) (repeat 0 32)
+                 (cmp_flags len (16 mod two64) signed64) None).
+Proof.
+  eexists. intros f. unfold entry_index_non_ascii_go122_amd64_IndexNonASCII, init.
+  do 10 xstep. unfold mk. reflexivity.
+Qed.
+
+Lemma prologue_byt r0 : exists x0, forall f,
+  run (S (S (S (S (S (S (S (S (S (S f)))))))))) entry_index_non_ascii_go122_amd64_IndexByteNonASCII (init r0)
+  = run f 14 (mk (128 mod two64) len (r0 CX) (r0 DX) A (r0 DI) slot (r0 R9) (r0 R10) (r0 R11) (r0 R12) (r0 R13) (r0 R14) (r0 R15)
+                 x0 (repeat 0 32) (repeat 0 32) (repeat 0 32) (repeat 0 32) (repeat 0 32) (repeat 0 32) (repeat 0 32)
+                 (cmp_flags len (16 mod two64) signed64) None).
+Proof.
+  eexists. intros f. unfold entry_index_non_ascii_go122_amd64_IndexByteNonASCII, init.
+  do 10 xstep. unfold mk. reflexivity.
+Qed.
+
+Lemma body_from_dispatch cx dx di r9 r10 r11 r12 r13 r14 r15 x0 :
+  exists fuel, run fuel 14 (mk (128 mod two64) len cx dx A di slot r9 r10 r11 r12 r13 r14 r15
+                 x0 (repeat 0 32) (repeat 0 32) (repeat 0 32) (repeat 0 32) (repeat 0 32) (repeat 0 32) (repeat 0 32)
+                 (cmp_flags len (16 mod two64) signed64) None) = Done (Some (fh s)).
+Proof.
+  change (16 mod two64) with 16.
+  destruct (Z_lt_le_dec len 16) as [H16|H16]; [apply small_path; exact H16|].
+  destruct (Z_le_gt_dec len 32) as [H32|H32]; [apply sse_path; [exact H16|left; exact H32]|].
+  destruct (bool_dec avx2 true) as [Hav|Hav].
+  - apply avx2_path; [lia|exact Hav|rewrite repeat_length; lia|rewrite repeat_length; lia].
+  - apply sse_path; [exact H16|right; apply not_true_is_false; exact Hav].
+Qed.
+
+(* THE KERNEL THEOREM: both entry points, started with arbitrary register contents, return the offset of the first
+   byte >= 0x80 of the argument (or -1): at every address >= 4096 and alignment, for every content of the
+   surrounding memory, with and without AVX2; no load leaves the pages of the argument (a load elsewhere is a
+   Fault of the machine, not Done) and the only store is the result slot. *)
+Theorem index_non_ascii_str r0 :
+  exists fuel, run fuel entry_index_non_ascii_go122_amd64_IndexNonASCII (init r0) = Done (Some (fh s)).
+Proof.
+  destruct (prologue_str r0) as [x0 Hp].
+  destruct (body_from_dispatch (r0 CX) (r0 DX) (r0 DI) (r0 R9) (r0 R10) (r0 R11) (r0 R12) (r0 R13) (r0 R14) (r0 R15) x0) as [fu Hfu].
+  exists (S (S (S (S (S (S (S (S (S (S fu)))))))))). rewrite Hp. exact Hfu.
+Qed.
+
+Theorem index_non_ascii_byt r0 :
+  exists fuel, run fuel entry_index_non_ascii_go122_amd64_IndexByteNonASCII (init r0) = Done (Some (fh s)).
+Proof.
+  destruct (prologue_byt r0) as [x0 Hp].
+  destruct (body_from_dispatch (r0 CX) (r0 DX) (r0 DI) (r0 R9) (r0 R10) (r0 R11) (r0 R12) (r0 R13) (r0 R14) (r0 R15) x0) as [fu Hfu].
+  exists (S (S (S (S (S (S (S (S (S (S fu)))))))))). rewrite Hp. exact Hfu.
+Qed.
+
 End K.
